@@ -126,10 +126,27 @@ def main(tier):
         opn = pr.get(m.tokvar("("))
         okp = opn is not None and opn[1][1][0] == "tailcall" and opn[1][1][1][0] == "encl" and M("(lambda ((bind ?x)) (var ?x))", opn[1][1][1][3]) is not None and opn[1][1][1][1] == "DefaultZero"
         run.ob(okp, "paren-identity|%s" % ev, "C13 a redundant pair of round brackets contributes nothing but its content", where(m, "::parser::Parser::parse_number"), "")
+    superscript_checks(run, F, models, "C13")
+    for ev, m in models.items():
+        bodies = set()
+        for c_ in spec.SUPERSCRIPTS:
+            k_, i_ = m.lex.arm_for(c_)
+            r_ = m.lex.run(c_ + ")")
+            run.ob(k_ == "arm" and r_.get("kind") == "scan", "superscript-start|%s|%s" % (ev, c_), "C13 every superscript digit can start (and continue) a superscript run", where(m, "::tokenizer::Tokenizer"), "%r -> %s" % (c_, r_.get("kind")), distinct="superscript-start|%s" % ev)
+            if k_ == "arm":
+                bodies.add(T.show(m.lex.arms[i_][1]))
+        run.ob(len(bodies) == 1, "superscript-arms|%s" % ev, "C13 the ten superscript digits are scanned by identical code", where(m, "::tokenizer::Tokenizer"), "%d distinct arm bodies" % len(bodies))
+    report_issues(run, models, tables={"T_prim", "T_lex", "T_loop"})
+    run.floor("evaluators analysed", len(models), 5)
+    run.floor("obligations", run.obligations, 200)
+    return run.finish("whitespace dataflow; alias classes; whole-keyword recognition for every surface; notation pairs build equal nodes; superscript relational checks", "./check C13 --tier %s" % tier)
+
+
+def superscript_checks(run, F, models, tag):
     # the shared superscript scanner maps each superscript digit to its digit
     f = F.by_key.get("utils::superscript::superscript_digit_to_digit")
     if f is None:
-        run.ob(False, "anchor|superscript_digit_to_digit", "C13 anchor", "utils", "superscript_digit_to_digit not found")
+        run.ob(False, "anchor|superscript_digit_to_digit", "%s " % tag + "anchor", "utils", "superscript_digit_to_digit not found")
     else:
         m0 = list(models.values())[0]
         t = m0.tb.fn_term(f, inline_pure=True)
@@ -141,11 +158,11 @@ def main(tier):
                 if e and v:
                     got[e["?c"]] = v["?d"]
         want = dict(zip(spec.SUPERSCRIPTS, "0123456789"))
-        run.ob(got == want, "superscript-map", "C13 each superscript digit denotes its digit", f.key, "map %s" % got, sample={"superscript_map": got})
+        run.ob(got == want, "superscript-map", "%s each superscript digit denotes its digit" % tag, f.key, "map %s" % got, sample={"superscript_map": got})
     # the shared superscript scanner collects the whole run of superscript digits, mapped digit by digit
     f = F.by_key.get("utils::deserialize_superscript_number::deserialize_superscript_number")
     if f is None:
-        run.ob(False, "anchor|deserialize_superscript_number", "C13 anchor", "utils", "deserialize_superscript_number not found")
+        run.ob(False, "anchor|deserialize_superscript_number", "%s " % tag + "anchor", "utils", "deserialize_superscript_number not found")
     else:
         m0 = list(models.values())[0]
         t = m0.tb.fn_term(f, inline_pure=True)
@@ -155,8 +172,4 @@ def main(tier):
                          ("if", ("iflet", ("pvar", "Option::Some", ("bind", "?q")), ("call", DIG, ("var", "?p"))), ("seq", ("call", "Chars.next", ("param", "?e")), ("call", "String::push", ("var", "?s"), ("var", "?q"))), ("break",)), ("break",))),
                ("var", "?s"))
         ok = M(pat, t) is not None
-        run.ob(ok, "superscript-run", "C13 a superscript run is scanned completely: first digit, then every following superscript digit, each mapped to its digit", f.key, "" if ok else "UNRECOGNISED: " + T.show(t)[:400])
-    report_issues(run, models, tables={"T_prim", "T_lex", "T_loop"})
-    run.floor("evaluators analysed", len(models), 5)
-    run.floor("obligations", run.obligations, 200)
-    return run.finish("whitespace dataflow; alias classes; whole-keyword recognition for every surface; notation pairs build equal nodes; superscript relational checks", "./check C13 --tier %s" % tier)
+        run.ob(ok, "superscript-run", "%s a superscript run is scanned completely: first digit, then every following superscript digit, each mapped to its digit" % tag, f.key, "" if ok else "UNRECOGNISED: " + T.show(t)[:400])
